@@ -22,7 +22,7 @@ def admissible(spec, ad, read, a0, a1, r0, r1, eq):
         return None
     if not U.placement_ok(U.doc_flags(spec), m, n, a0, a1, r0, r1):
         return None
-    if a1 - a0 < ad.min_overlap:
+    if a1 - a0 < min(spec.min_overlap, m):   # the minimum overlap as given, capped at the adapter length (documented behaviour)
         return None
     if ad.indels:
         d = U.edit_distance(seq[a0:a1], read[r0:r1], eq)
@@ -74,7 +74,7 @@ def oracle_cut(spec, ad, read, mt, eq):
     if spec.force_anywhere:
         return None
     copies = exact_copies(seq, read, eq)
-    if not copies or ad.min_overlap > m:
+    if not copies:
         return None
     if mt is None:
         if spec.typ in ("Back", "Front", "RightmostFront", "Anywhere"):
